@@ -1,6 +1,6 @@
 (* C02 — The parser conforms to the message grammar and is total.
    Only statements here; proofs live in Proofs/. *)
-Require Import Bytes AMap Tags Event Grammar ParseNF GrammarProofs.
+Require Import Bytes AMap Tags Event Grammar LineGrammar ParseNF GrammarProofs RecogniserProofs.
 
 (* Every line of the grammar (Spec/Grammar.v: optional tags, optional source, command of
    >= 2 letters or 3 digits, any number of middles separated by runs of SPACE, optional
@@ -14,6 +14,18 @@ Print Assumptions C02_grammar.
 Theorem C02_tag_values : forall l k, tags_get (Some (meaning_tags l)) k = spec_tag_value l k.
 Proof. exact meaning_tags_get. Qed.
 Print Assumptions C02_tag_values.
+
+(* The grammar has an exact executable recogniser: wf_lineb l holds exactly for the
+   renderings of well-formed ASTs, so C02_grammar can be read as a statement about all
+   lines accepted by wf_lineb. *)
+Theorem C02_recogniser : forall l, wf_lineb l = true <-> exists a, wf_ast a /\ render a = l.
+Proof. exact wf_line_iff. Qed.
+Print Assumptions C02_recogniser.
+
+Theorem C02_grammar_lines : forall l a, wf_lineb l = true -> parse_ast l = Some a ->
+  parse_event l = Ok (Some (meaning a)).
+Proof. exact grammar_parse_line. Qed.
+Print Assumptions C02_grammar_lines.
 
 (* A valid server-time tag becomes the event timestamp; without one, or with an
    unparseable one, the timestamp is the local receive time.  time.Parse is a parameter. *)
